@@ -158,7 +158,10 @@ def generate(rng, k):
     ops = []
     lang = "python"
     if k["population"] == "generated":
-        files = projgen.gen_project(rng, k["n_modules"], k["size"])
+        # runs that vary the directory-entry order get sibling units whose names collide modulo case (half of them)
+        fd0 = DIM_CYCLE[k.get("run_index", 0) % len(DIM_CYCLE)]
+        shape = "case_collision" if fd0 == "dirent" and (k.get("run_index", 0) // len(DIM_CYCLE)) % 2 == 0 else None
+        files = projgen.gen_project(rng, k["n_modules"], k["size"], shape=shape)
         for p in sorted(files):
             ops.append({"op": "file", "path": p, "content": files[p]})
     else:
